@@ -114,9 +114,12 @@ type world struct {
 	started map[string]bool
 	ended   map[string]bool
 	cancels map[string]context.CancelFunc
-	nabort  int
-	nclose  int
-	opsRun  []*opRes
+	// context of the API calls other than copies and closes; a close of kind "late" takes it over
+	opCtx    context.Context
+	opCancel context.CancelFunc
+	nabort   int
+	nclose   int
+	opsRun   []*opRes
 
 	drift     []string
 	adapted   int
@@ -377,6 +380,7 @@ func (w *world) setup(work string) error {
 		return errors.New("scenario: a fresh layout cannot have earlier content")
 	}
 	w.ctx = context.Background()
+	w.opCtx, w.opCancel = context.WithCancel(w.ctx)
 	// content the layout held before this process: copied by another client instance
 	if len(w.sc.Conf.Pre) > 0 {
 		pre, err := newClient(w.net, true)
@@ -534,7 +538,29 @@ func (w *world) addSnap(ev vtrace.Event, pfx string, s *snapshot, graph bool) {
 	}
 }
 
-func (w *world) doClose(key string) error {
+// closeCtx builds the context rc.Close is called with.  "late": the context the API calls before
+// this close were made with, cancelled now (a command that timed out and runs its deferred Close).
+func (w *world) closeCtx(kind string) (context.Context, context.CancelFunc, error) {
+	switch kind {
+	case "", "bg":
+		return w.ctx, func() {}, nil
+	case "cancelled":
+		ctx, cancel := context.WithCancel(w.ctx)
+		cancel()
+		return ctx, cancel, nil
+	case "expired":
+		ctx, cancel := context.WithDeadline(w.ctx, time.Now().Add(-time.Hour))
+		return ctx, cancel, nil
+	case "late":
+		ctx := w.opCtx
+		w.opCancel()
+		w.opCtx, w.opCancel = context.WithCancel(w.ctx)
+		return ctx, func() {}, nil
+	}
+	return nil, nil, fmt.Errorf("unknown context kind %q", kind)
+}
+
+func (w *world) doClose(key, kind string) error {
 	// the reference given to Close names the layout; its tag / digest part must not matter
 	w.nclose++
 	tag, dig := "", ""
@@ -548,11 +574,16 @@ func (w *world) doClose(key string) error {
 	if err != nil {
 		return err
 	}
+	ctx, cancel, err := w.closeCtx(kind)
+	if err != nil {
+		return err
+	}
+	defer cancel()
 	before := w.snap()
-	cerr := w.rc.Close(w.ctx, r)
+	cerr := w.rc.Close(ctx, r)
 	// Close runs synchronously in this goroutine and everything else is blocked
 	after := w.snap()
-	ev := vtrace.Event{"ev": "close", "key": key, "err": b2i(cerr != nil)}
+	ev := vtrace.Event{"ev": "close", "key": key, "ctx": kind, "err": b2i(cerr != nil)}
 	if cerr != nil {
 		ev["errmsg"] = clip(cerr.Error())
 	}
@@ -606,13 +637,14 @@ func (w *world) reapOps() (int, error) {
 
 func (w *world) doOp(st step) error {
 	key := w.sc.Conf.OKey
+	ctx := w.opCtx
 	switch st.A {
 	case "TagDelete":
 		r, err := w.tgtRef(key, w.realTag(st.N), "")
 		if err != nil {
 			return err
 		}
-		w.async("tag_delete", st.N, false, func() error { return w.rc.TagDelete(w.ctx, r) })
+		w.async("tag_delete", st.N, false, func() error { return w.rc.TagDelete(ctx, r) })
 	case "ManifestDelete":
 		nd := w.cat.nodes[st.N]
 		if nd == nil {
@@ -622,7 +654,7 @@ func (w *world) doOp(st step) error {
 		if err != nil {
 			return err
 		}
-		w.async("manifest_delete", w.cat.abbr(nd.Digest), false, func() error { return w.rc.ManifestDelete(w.ctx, r) })
+		w.async("manifest_delete", w.cat.abbr(nd.Digest), false, func() error { return w.rc.ManifestDelete(ctx, r) })
 	case "Retag":
 		// a copy inside the layout (same repository): only the manifest is pushed under the new tag
 		src, err := w.tgtRef(key, w.realTag(st.N), "")
@@ -633,7 +665,7 @@ func (w *world) doOp(st step) error {
 		if err != nil {
 			return err
 		}
-		w.async("retag", st.T, false, func() error { return w.rc.ImageCopy(w.ctx, src, tgt) })
+		w.async("retag", st.T, false, func() error { return w.rc.ImageCopy(ctx, src, tgt) })
 	case "PushBlob":
 		nd := w.cat.nodes[st.N]
 		r, err := w.tgtRef(key, "", "")
@@ -641,7 +673,7 @@ func (w *world) doOp(st step) error {
 			return err
 		}
 		w.async("push_blob", w.cat.abbr(nd.Digest), false, func() error {
-			_, err := w.rc.BlobPut(w.ctx, r, descriptor.Descriptor{Digest: digest.Digest(nd.Digest), Size: int64(len(nd.Body))}, bytes.NewReader(nd.Body))
+			_, err := w.rc.BlobPut(ctx, r, descriptor.Descriptor{Digest: digest.Digest(nd.Digest), Size: int64(len(nd.Body))}, bytes.NewReader(nd.Body))
 			return err
 		})
 	case "PushBlobBad":
@@ -653,7 +685,7 @@ func (w *world) doOp(st step) error {
 		}
 		body := []byte("not the announced content")
 		w.async("push_blob_bad", "", true, func() error {
-			_, err := w.rc.BlobPut(w.ctx, r, descriptor.Descriptor{Digest: digest.Digest(nd.Digest), Size: int64(len(body))}, bytes.NewReader(body))
+			_, err := w.rc.BlobPut(ctx, r, descriptor.Descriptor{Digest: digest.Digest(nd.Digest), Size: int64(len(body))}, bytes.NewReader(body))
 			return err
 		})
 	case "PushManifest":
@@ -677,7 +709,7 @@ func (w *world) doOp(st step) error {
 		if err != nil {
 			return err
 		}
-		w.async("push_manifest", w.cat.abbr(nd.Digest), false, func() error { return w.rc.ManifestPut(w.ctx, r, m, opts...) })
+		w.async("push_manifest", w.cat.abbr(nd.Digest), false, func() error { return w.rc.ManifestPut(ctx, r, m, opts...) })
 	default:
 		return fmt.Errorf("unknown step %q", st.A)
 	}
@@ -826,7 +858,7 @@ func (w *world) run() error {
 		case "CopyBegin":
 			err = w.startCopy(st.C)
 		case "Close":
-			err = w.doClose(st.N)
+			err = w.doClose(st.N, st.T)
 		case "CopyHeadSame", "CopyFetch", "CopyRefList", "CopyBlobStart", "CopyAbort":
 			var ok bool
 			ok, err = w.gated(st)
